@@ -14,6 +14,9 @@ fn main() {
         "noop" => {}
         "codec" => wpmon::engines::codec::run(&mut ctx),
         "codec-stream" => wpmon::engines::codec::run_stream(&mut ctx),
+        "iovec" => wpmon::engines::iovec::run(&mut ctx),
+        "stream" => wpmon::engines::stream::run(&mut ctx),
+        "readn" => wpmon::engines::readn::run(&mut ctx),
         "deque-c15" => wpmon::engines::deque::run_c15(&mut ctx),
         "deque-c16" => wpmon::engines::deque::run_c16(&mut ctx),
         other => {
